@@ -1,6 +1,7 @@
 # C02 ReliableUnordered: dedupe-set discipline (necessary conditions only)
 import re
 from sa.rules import *
+import rules.shared as shared
 import rules.C09 as C09
 RR = "channel::reliable::ReceiveChannelReliable"
 
@@ -41,4 +42,5 @@ def rules(t):
             if nones: r.bad("delay", nones[0], "a popped unordered message can be withheld (returns None after pop_first succeeded)")
     if not pops: r.bad("pop", None, "unordered delivery is not messages.pop_first()")
     out.append(r)
+    out.append(shared.ack_once(t, "C02.d"))
     return out
